@@ -11,6 +11,7 @@ METAS = {
     'm0': (b'', b'', {}),
     'm1': (b'user one', b'd' * 300, {'k': 'x' * 40}),
     'm2': (b'u' * 255, b'', {'list': [1, 2, 3]}),
+    'mlong': (b'', b'd' * 65536, {}),
 }
 
 
@@ -44,7 +45,7 @@ def diff(path, model, real, out, limit=6):
         out.append('%s: spec=%r impl=%r' % (path, model, real))
 
 
-ALIASES = {'AbortFailed': 'Abort', 'NewOidQ': 'NewOid', 'CloseReopenQ': 'CloseReopen', 'DeleteQ': 'Delete'}
+ALIASES = {'EarlyStore': 'Store', 'StaleStore': 'Store', 'RestoreAny': 'Restore', 'AbortFailed': 'Abort', 'NewOidQ': 'NewOid', 'CloseReopenQ': 'CloseReopen', 'DeleteQ': 'Delete'}
 
 
 class StorageReplayer:
@@ -134,7 +135,7 @@ class StorageReplayer:
                 r = st.undo(base64.encodebytes(self.tids.real(t)).rstrip(), self.t)
                 extra['oids'] = frozenset(u64(x) for x in r[1])
             elif action == 'Restore':
-                c, o, d, prev = args
+                c, o, d, prev = (tuple(args) + (0,))[:4]
                 d = norm(d)
                 data = None if d['v'] == ('gone',) else self.data(o, d)
                 st.restore(p64(o), self._tid_of_txn(state), data, '', self.tids.real(prev) if prev else None, self.t)
@@ -187,6 +188,8 @@ class StorageReplayer:
             got = 'POSKeyError'
         except E.ReadOnlyError:
             got = 'ReadOnlyError'
+        except E.StorageError as ex:
+            got = type(ex).__name__
         except Exception as ex:            # anything else the real call raises is an outcome, not a crash
             got = type(ex).__name__
             self.last_exc = repr(ex)[:200]
@@ -216,6 +219,20 @@ class StorageReplayer:
             present = False
         if present:
             self.monitor.append('new_oid returned %s which is present in the storage' % oid.hex())
+
+    def bytes_check(self, action, res):
+        """C05 on disk: the data file after an abort is byte-identical to the file before the begin."""
+        with open(self.path, 'rb') as f:
+            now = f.read()
+        if action == 'Begin':
+            self.snap = getattr(self, 'snap_idle', now)
+            return []
+        if action == 'Abort':
+            if now != self.snap:
+                return ['data file differs after abort: %d bytes before begin, %d after abort' % (len(self.snap), len(now))]
+        if action in ('Abort', 'Finish', 'Init', 'CloseReopen'):
+            self.snap_idle = now
+        return []
 
     # ---- queries ----
     def _q(self, fn, *a):
@@ -301,6 +318,8 @@ CLS_MERGE1 = 'MCCls'          # oid 1 has a resolver, the rest are plain (see MC
 
 def consts(kind, NOid=2, AtomVals=('v1', 'v2'), RefSets='NoRefs', Metas=('m0',), MaxTxn=3, MaxRecs=2,
            MaxClock=2, K=8, Cls=CLS_MERGE1, Client=('c1',), MaxUndo=2):
+    if K <= MaxTxn + 1:
+        K = 32           # bumps (one per begun transaction at most) must stay below the tid spacing
     return dict(Kind=kind, NOid=NOid, AtomVals=tuple(AtomVals), RefSets=RefSets, Metas=tuple(Metas), MaxTxn=MaxTxn,
                 MaxRecs=MaxRecs, MaxClock=MaxClock, K=K, Cls=Cls, Client=tuple(Client), MaxUndo=MaxUndo)
 
@@ -352,9 +371,9 @@ def replay_behaviour(job):
             if not mm:
                 mm = rp.compare(step['state']['obs'])
                 what = 'obs'
-            if not mm and opts and opts.get('extra_check'):
-                mm = opts['extra_check'](rp, step)
-                what = 'extra'
+            if not mm and kind == 'file' and opts and opts.get('bytes_check'):
+                mm = rp.bytes_check(ALIASES.get(a, a), norm(step['state']['res']))
+                what = 'bytes'
             if mm:
                 result['mismatch'] = {'step': i, 'action': a, 'args': repr(tuple(norm(step['args']))), 'what': what,
                                       'detail': mm[:4],
